@@ -102,7 +102,7 @@ def run(ctx):
     ctx.evaluations = sum(len(c) - 11 for c in cases) * (1 + len(seeds)) + 2
     ctx.distinct_nontrivial = nt
     ctx.search_stats = {"cases": len(cases), "hash_seeds": [0] + seeds, "lines_with_listed_word": nt}
-    ctx.samples = [{"line": cases[0][11], "words": cases[0][3], "impl": textgen.outlines(i[0])[0]}, {"line": cases[3][12], "words": cases[3][3], "impl": textgen.outlines(i[3])[1]}]
+    ctx.samples = [dict(textgen.sample(cases[0], i[0], 0), words=cases[0][3]), dict(textgen.sample(cases[3], i[3], 1), words=cases[3][3])]
 
 
 def _reserved():
